@@ -11,6 +11,8 @@ collections are characterised here.
 Theorems/C06.lean); `noRefInTable` is the table obligation `C06_table`.
 -/
 import ReuseVerif.Lemmas.ReportMain
+import ReuseVerif.Lemmas.LintE2E
+import ReuseVerif.Lemmas.CoveredSpec
 import ReuseVerif.Theorems.C06
 
 namespace C01
@@ -101,5 +103,219 @@ example : (generate spdxTable good).map (·.isCompliant) = some true := by decid
 example : (generate spdxTable C06.demo).map (·.exit) = some 1 := by decide +kernel
 example : (generate spdxTable { good with files := { path := "pipe".toList, readable := false, hasCopyright := false, exprs := [] } :: good.files }).map
     (fun r => (r.exit, r.readErrors)) = some (1, ["pipe".toList]) := by decide +kernel
+
+/-! ## The composed model: `reuse lint` from the tree to the verdict
+
+`Model.lintE2E` (Model/LintE2E.lean) chains the models of C03 (walk), C05 (globs), C04 (sources
+and precedence), C02/C12 (extraction from the bytes of the own source) and C06/C01 (report); the
+theorems below are composition corollaries of `C03_walk`, `C04_items`, `C04_last_wins` and the
+verdict / category theorems above, about the *tree*.  `Spec/LintE2E.lean` holds the tree-level
+clauses.  Hypotheses, all named:
+* `noRefInTable`, `plainNames` — as for `C01_verdict_partial` (table obligation; ambiguous names);
+* `NoEmptyNotice` — no attributed copyright line is the empty string (only `SPDX-FileCopyrightText = ""`
+  in a REUSE.toml produces one; `noEmptyNoticeB` on the model's output implies it, `C01_e2e_hyp`);
+* `wfEntries` — the names within one directory are distinct (for the two look-up statements only).
+Oracles (parameters of `E2ECfg`): the VCS, `is_binary`, tomlkit / python-debian (parsed REUSE.toml,
+dep5), license-expression (`parses`, `keysOf`). -/
+
+section E2E
+variable {c : E2ECfg} {g : GlobalLic} {tree : ETree} {files : List EFile}
+
+/-- The verdict of the composed model is clauses (a)–(d) read on the tree: covered files are those
+    of C03, what is attributed to them is what C04's rules say for the chain of REUSE.toml tables
+    found on their ancestor directories and their own source, licence texts are the files below
+    LICENSES/.  Full statement (without `plainNames`, `NoEmptyNotice`): false for the recorded
+    ambiguous LICENSES/ names and for two-or-more empty copyright strings. -/
+theorem C01_e2e_verdict_partial (ht : noRefInTable tbl = true) (hg : globalOf c tree = some g)
+    (hp : plainNames tbl (licFilesOf tree) = true) (hne : NoEmptyNotice c g tree)
+    (h : lintE2E tbl c tree = .ok files r) : r.isCompliant = true ↔ TreeCompliant tbl c g tree := by
+  obtain ⟨g', hg', hgen, _⟩ := lintE2E_ok h
+  rw [hg] at hg'; cases hg'
+  rw [C01_verdict_partial ht hp hgen]
+  exact compliant_iff_tree hne
+
+/-- exit status 0 exactly when the tree is compliant -/
+theorem C01_e2e_exit_partial (ht : noRefInTable tbl = true) (hg : globalOf c tree = some g)
+    (hp : plainNames tbl (licFilesOf tree) = true) (hne : NoEmptyNotice c g tree)
+    (h : lintE2E tbl c tree = .ok files r) : r.exit = 0 ↔ TreeCompliant tbl c g tree := by
+  rw [(C01_exit r).1]; exact C01_e2e_verdict_partial ht hg hp hne h
+
+/-- The files the composed model reports on are exactly the covered files of the tree in the flat
+    reading `Spec.Covered`: regular, non-empty files no file rule excludes, below real directories no
+    directory rule excludes (`C03_walk` + the agreement of the two readings). -/
+theorem C01_e2e_files (h : lintE2E tbl c tree = .ok files r) (p : List String) :
+    p ∈ files.map (·.path) ↔ Covered (c.walk false) "" (toNodes tree) p := by
+  obtain ⟨g, _, _, rfl⟩ := lintE2E_ok h
+  rw [← coveredIn_iff_covered]
+  simp only [filesOf, coveredFiles, List.map_map, List.mem_map, Function.comp, fileOf]
+  constructor
+  · rintro ⟨q, hq, rfl⟩; exact (C03.C03_walk _ _ _ _).mp hq
+  · intro hp; exact ⟨p, (C03.C03_walk _ _ _ _).mpr hp, rfl⟩
+
+/-- `CoveredT`, the form the other statements use, is that same set -/
+theorem C01_e2e_covered (p : List String) : CoveredT c tree p ↔ Covered (c.walk false) "" (toNodes tree) p :=
+  coveredIn_iff_covered _ _ _ _
+
+/-- ... and every one of them ends up either with a file report or among the read errors, nothing else does. -/
+theorem C01_e2e_reported (h : lintE2E tbl c tree = .ok files r) (q : Text) :
+    (q ∈ r.fileReports.map (·.path) ∨ q ∈ r.readErrors) ↔ ∃ p, CoveredT c tree p ∧ q = relText p := by
+  obtain ⟨g, _, hgen, _⟩ := lintE2E_ok h
+  obtain ⟨fd, _, rfl⟩ := split_generate hgen
+  simp only [generateOn, List.mem_map, List.mem_filter]
+  constructor
+  · rintro (⟨f, ⟨hf, _⟩, rfl⟩ | ⟨f, ⟨hf, _⟩, rfl⟩) <;>
+    · obtain ⟨p, hp, rfl⟩ := mem_projectFiles.mp hf
+      exact ⟨p, hp, rfl⟩
+  · rintro ⟨p, hp, rfl⟩
+    have hf : (fileOf c g tree p).toCov c ∈ (projectOf c g tree).files := mem_projectFiles.mpr ⟨p, hp, rfl⟩
+    cases hr : ((fileOf c g tree p).toCov c).readable with
+    | true => exact .inl ⟨_, ⟨hf, hr⟩, rfl⟩
+    | false => exact .inr ⟨_, ⟨hf, by simp [hr]⟩, rfl⟩
+
+/-- What the composed model attributes to a covered file is what the sources-and-precedence rules
+    (`C04_items`) say for its chain and its own source. -/
+theorem C01_e2e_attribution (p : List String) (it : Item) :
+    it ∈ itemsOf (fileOf c g tree p).infos ↔ AttributedT c g tree p it := items_iff p it
+
+/-- read errors: exactly the covered files whose own source cannot be opened while no `override` spares it -/
+theorem C01_e2e_read_errors (hg : globalOf c tree = some g) (h : lintE2E tbl c tree = .ok files r) (q : Text) :
+    q ∈ r.readErrors ↔ ∃ p, CoveredT c tree p ∧ ¬ ReadableT c g tree p ∧ q = relText p := by
+  obtain ⟨g', hg', hgen, _⟩ := lintE2E_ok h
+  rw [hg] at hg'; cases hg'
+  rw [C01_read_errors hgen]
+  constructor
+  · rintro ⟨f, hf, hr, rfl⟩
+    obtain ⟨p, hp, rfl⟩ := mem_projectFiles.mp hf
+    exact ⟨p, hp, (fun hh => by rw [(readable_iff p).mpr hh] at hr; cases hr), rfl⟩
+  · rintro ⟨p, hp, hr, rfl⟩
+    refine ⟨_, mem_projectFiles.mpr ⟨p, hp, rfl⟩, ?_, rfl⟩
+    cases hh : ((fileOf c g tree p).toCov c).readable with
+    | false => rfl
+    | true => exact absurd ((readable_iff p).mp hh) hr
+
+/-- named under "no copyright": exactly the readable covered files without a notice -/
+theorem C01_e2e_no_copyright_partial (hg : globalOf c tree = some g) (hne : NoEmptyNotice c g tree)
+    (h : lintE2E tbl c tree = .ok files r) (q : Text) :
+    q ∈ r.noCopyright ↔ ∃ p, CoveredT c tree p ∧ ReadableT c g tree p ∧ ¬ HasNotice c g tree p ∧ q = relText p := by
+  obtain ⟨g', hg', hgen, _⟩ := lintE2E_ok h
+  rw [hg] at hg'; cases hg'
+  rw [C01_no_copyright hgen]
+  constructor
+  · rintro ⟨f, hf, hr, hc, rfl⟩
+    obtain ⟨p, hp, rfl⟩ := mem_projectFiles.mp hf
+    exact ⟨p, hp, (readable_iff p).mp hr, (fun hh => by rw [(hasCopyright_iff hne hp).mpr hh] at hc; cases hc), rfl⟩
+  · rintro ⟨p, hp, hr, hc, rfl⟩
+    refine ⟨_, mem_projectFiles.mpr ⟨p, hp, rfl⟩, (readable_iff p).mpr hr, ?_, rfl⟩
+    cases hh : ((fileOf c g tree p).toCov c).hasCopyright with
+    | false => rfl
+    | true => exact absurd ((hasCopyright_iff hne hp).mp hh) hc
+
+/-- named under "no licence": exactly the readable covered files without an expression that mentions an identifier -/
+theorem C01_e2e_no_licence (hg : globalOf c tree = some g) (h : lintE2E tbl c tree = .ok files r) (q : Text) :
+    q ∈ r.noLicence ↔ ∃ p, CoveredT c tree p ∧ ReadableT c g tree p ∧ ¬ HasLicence c g tree p ∧ q = relText p := by
+  obtain ⟨g', hg', hgen, _⟩ := lintE2E_ok h
+  rw [hg] at hg'; cases hg'
+  rw [C01_no_licence hgen]
+  constructor
+  · rintro ⟨f, hf, hr, hc, rfl⟩
+    obtain ⟨p, hp, rfl⟩ := mem_projectFiles.mp hf
+    exact ⟨p, hp, (readable_iff p).mp hr, fun hh => hc ((hasLicence_iff p).mpr hh), rfl⟩
+  · rintro ⟨p, hp, hr, hc, rfl⟩
+    exact ⟨_, mem_projectFiles.mpr ⟨p, hp, rfl⟩, (readable_iff p).mpr hr, fun hh => hc ((hasLicence_iff p).mp hh), rfl⟩
+
+/-- missing licences on the tree: used by that covered file, and neither the identifier nor its '+'-less form has a text -/
+theorem C01_e2e_missing_partial (hg : globalOf c tree = some g) (hp : plainNames tbl (licFilesOf tree) = true)
+    (h : lintE2E tbl c tree = .ok files r) (k q : Text) :
+    (k, q) ∈ r.missing ↔ (∃ p, UsedByT c g tree k p ∧ q = relText p) ∧
+      ¬ ProvidedT tbl tree k ∧ ¬ ProvidedT tbl tree (stripPlus k) := by
+  obtain ⟨g', hg', hgen, _⟩ := lintE2E_ok h
+  rw [hg] at hg'; cases hg'
+  rw [C06.C06_missing_partial hp hgen, Missing, usedBy_iff_tree]
+  rfl
+
+/-- unused licences on the tree: a text is there and no readable covered file mentions the identifier or its '+' form -/
+theorem C01_e2e_unused_partial (hg : globalOf c tree = some g) (hp : plainNames tbl (licFilesOf tree) = true)
+    (h : lintE2E tbl c tree = .ok files r) (l : Text) :
+    l ∈ r.unused ↔ ProvidedT tbl tree l ∧ ¬ UsedT c g tree l ∧ ¬ UsedT c g tree (addPlus l) := by
+  obtain ⟨g', hg', hgen, _⟩ := lintE2E_ok h
+  rw [hg] at hg'; cases hg'
+  rw [C06.C06_unused_partial hp hgen, Unused, used_iff, used_iff]
+  rfl
+
+/-- `_determine_license_path` on the tree: FILE.license replaces FILE as the own source exactly when it
+    exists as a regular file; a directory of that name makes the file unreadable. -/
+theorem C01_e2e_own_source (hwf : wfEntries tree) (dir : List String) (name : String) (content : Bytes)
+    (hf : EAt tree (dir ++ [name]) (.file content)) :
+    OwnSourceIs tree dir name content (ownAt tree (dir ++ [name])) := ownAt_spec hwf dir name content hf
+
+/-- The override short-cut: when an `override` table applies, nothing of the file or its sibling enters
+    the result — not its bytes, not the answer of the binary test. -/
+theorem C01_e2e_override_not_read {p : List String} (h : hasOverride (chainOf c g p) = true) :
+    (fileOf c g tree p).infos = reuseInfoOf (chainOf c g p) emptyOwn := infos_of_override h
+
+/-- The REUSE.toml files of the project are those the C03 walk (with REUSE.toml admitted) yields. -/
+theorem C01_e2e_tomls (q : List String) :
+    q ∈ tomlFiles c tree ↔ CoveredIn (c.walk true) [] "" (toNodes tree) q ∧ q.getLast? = some "REUSE.toml" := by
+  simp only [tomlFiles, List.mem_filter, C03.C03_walk, beq_iff_eq]
+
+/-- One level of the chain: the REUSE.toml of the ancestor directory `p.take i` contributes its *last*
+    table one of whose globs matches the path *relative to that directory* (`C04_last_wins`). -/
+theorem C01_e2e_level_last_match {tomls : List (List String)} {p : List String} {i : Nat}
+    (pre post : List TomlTable) (t : TomlTable)
+    (hfound : (p.take i ++ ["REUSE.toml"]) ∈ tomls) (hload : c.tomlOf (p.take i) = some (pre ++ t :: post))
+    (hm : itemMatches t.paths (relText (p.drop i)) = true)
+    (hpost : ∀ u ∈ post, itemMatches u.paths (relText (p.drop i)) = false) :
+    levelAt c tomls p i = some t.toTable := by
+  rw [levelAt_found hfound hload, List.map_append, List.map_cons, hm]
+  apply C04.C04_last_wins
+  intro x hx
+  obtain ⟨u, hu, rfl⟩ := List.mem_map.mp hx
+  exact hpost u hu
+
+/-- ... and nothing when no REUSE.toml was found there or none of its tables matches. -/
+theorem C01_e2e_level_none {tomls : List (List String)} {p : List String} {i : Nat}
+    (h : (p.take i ++ ["REUSE.toml"]) ∉ tomls ∨
+      ∃ ts, c.tomlOf (p.take i) = some ts ∧ ∀ u ∈ ts, itemMatches u.paths (relText (p.drop i)) = false) :
+    levelAt c tomls p i = none := by
+  rcases h with h | ⟨ts, hload, hno⟩
+  · simp [levelAt, h]
+  · by_cases hf : (p.take i ++ ["REUSE.toml"]) ∈ tomls
+    · rw [levelAt_found hf hload]
+      apply C04.C04_no_match
+      intro x hx
+      obtain ⟨u, hu, rfl⟩ := List.mem_map.mp hx
+      exact hno u hu
+    · simp [levelAt, hf]
+
+/-- `_find_licenses` on the tree: the regular files below the directory LICENSES/, at any depth, no
+    component hidden. -/
+theorem C01_e2e_licences {cs : ETree} (hd : elookup tree "LICENSES" = some (.dir cs)) (q : Text) :
+    q ∈ licFilesOf tree ↔ ∃ rel, LicIn cs rel ∧ q = relText ("LICENSES" :: rel) := mem_licFilesOf hd q
+
+/-- the hypothesis `NoEmptyNotice` is implied by a check of the model's own output -/
+theorem C01_e2e_hyp (h : noEmptyNoticeB (filesOf c g tree) = true) : NoEmptyNotice c g tree :=
+  noEmptyNotice_of_B h
+
+-- Non-vacuity: the hypotheses are satisfiable — a project holding only a dangling symlink is compliant.
+example (c : E2ECfg) : globalOf c [("l", .symlink)] = some .none_ := by
+  simp [globalOf, hasDep5, subtree, elookup, tomlFiles, iterFiles, toNodes, ENode.toNode, walkList, walkNode]
+example : plainNames spdxTable (licFilesOf [("l", .symlink)]) = true := by decide
+example (c : E2ECfg) : NoEmptyNotice c .none_ [("l", .symlink)] := by
+  intro p it hp
+  cases hp with
+  | file hm _ => simp [toNodes, ENode.toNode] at hm
+  | dir hm _ _ => simp [toNodes, ENode.toNode] at hm
+example (c : E2ECfg) : ∃ r, lintE2E spdxTable c [("l", .symlink)] = .ok [] r ∧ r.isCompliant = true :=
+  ⟨generateOn { lmap := spdxTable } [], by
+    simp [lintE2E, globalOf, hasDep5, subtree, elookup, tomlFiles, iterFiles, toNodes, ENode.toNode, walkList,
+      walkNode, projectOf, filesOf, coveredFiles, licFilesOf, generate, findLicenses, findLoop], by decide⟩
+-- ... and of the look-up statements: a file with a `.license` sibling in a well-formed directory.
+example : wfEntries [("a.py", .file [35]), ("a.py.license", .file [])] := by
+  simp [wfEntries, wfNode]
+example : OwnSourceIs [("a.py", .file [35]), ("a.py.license", .file [])] [] "a.py" [35]
+    (ownAt [("a.py", .file [35]), ("a.py.license", .file [])] ([] ++ ["a.py"])) :=
+  C01_e2e_own_source (by simp [wfEntries, wfNode]) [] "a.py" [35] (.last (by simp))
+
+end E2E
 
 end C01
